@@ -1,10 +1,10 @@
 #!/bin/sh
-# usage: tools/runall.sh [tier] [seed...]  -- run every registered check, print one line each
+# usage: [CHECKS='C01 C02'] tools/runall.sh [tier] [seed...]  -- run every registered check, print one line each
 TIER=${1:-quick}; shift
 SEEDS=${*:-1}
 cd "$(dirname "$0")/.."
 for s in $SEEDS; do
-  for id in C01 C02 C03 C04 C05 C06 C07 C08 C09 C10 C11 C12 C13 C14 C15 C16 C17 C18 C19 C20; do
+  for id in ${CHECKS:-C01 C02 C03 C04 C05 C06 C07 C08 C09 C10 C11 C12 C13 C14 C15 C16 C17 C18 C19 C20}; do
     out=$(VERIF_SEED=$s ./check $id --tier $TIER 2>&1); rc=$?
     echo "rc=$rc $(echo "$out" | tail -1)"
     echo "$out" | grep -E "^(VIOLATION|FAIL|harness)" | cut -c1-300
